@@ -50,13 +50,15 @@ def baseCfg (k : String) : Option Cfg :=
   | "tlsM" => some ⟨[⟨1, plain "A"⟩], 1, .setupEarly⟩
   | "argL" => some ⟨[⟨1, plain "H"⟩], 1, .setupLate⟩
   | "logE" => some ⟨[⟨1, plain "H"⟩], 1, .startup⟩
+  -- MakeServers refuses (TLS and plain HTTP on one listener): after the directives, not reached by a validation
+  | "mux" => some ⟨[⟨1, plain "A"⟩], 1, .startup⟩
   | "busy3" => some ⟨[⟨3, plain "A"⟩], 0, .none⟩
   | "leak13" => some ⟨[⟨1, plain "A"⟩, ⟨3, plain "A"⟩], 1, .none⟩
   | "leak123" => some ⟨[⟨1, plain "B"⟩, ⟨2, plain "B"⟩, ⟨3, plain "B"⟩], 0, .none⟩
   | _ => none
 
 /-- kinds whose number of `on` directives can be chosen with the suffix `.h<N>`, N one decimal digit -/
-def hookable : List String := ["H1", "argE", "argL", "tlsM", "logE", "busy3", "leak13", "leak123"]
+def hookable : List String := ["H1", "argE", "argL", "tlsM", "logE", "mux", "busy3", "leak13", "leak123"]
 
 def kindCfg (k : String) : Option Cfg :=
   match k.splitOn ".h" with
